@@ -2,6 +2,7 @@
 
 import asyncio
 from collections.abc import Callable, Coroutine
+import contextlib
 from dataclasses import dataclass, field
 import json
 import logging
@@ -69,21 +70,20 @@ class Persistence:
 
     async def start(self) -> None:
         """Start the scheduled saving of data."""
+        stop_saving = asyncio.Event()
 
         async def save_on_schedule() -> None:
             """Save data and sleep until next save."""
-            while True:
+            while not stop_saving.is_set():
                 await self.save()
-                try:
-                    await asyncio.sleep(SAVE_INTERVAL)
-                except asyncio.CancelledError:
-                    break
+                with contextlib.suppress(TimeoutError):
+                    await asyncio.wait_for(stop_saving.wait(), SAVE_INTERVAL)
 
         task = asyncio.create_task(save_on_schedule())
 
         async def cancel_save() -> None:
-            """Cancel the save task."""
-            task.cancel()
+            """Stop the save task without interrupting a save in progress."""
+            stop_saving.set()
             await task
 
         self._cancel_save = cancel_save
